@@ -26,5 +26,16 @@ if [ "$NOBASE" != "--no-baseline" ]; then
   BASE=$(/verif/tools/baseline.sh $WT | tr '\n' ' ' | cut -c1-400)
 fi
 echo "baseline with patch: $BASE"
-echo "RESULT id=$ID demo_head_rc=$RC0 demo_patch_rc=$RC1 build=$BUILD baseline=[$BASE]"
+# pinned tests that did not pass: rerun each alone (still with the patch) to tell a load flake from a real break
+RETEST=""
+for t in $(echo "$BASE" | grep -o "NOT PASSING: [^ ]*" | awk '{print $3}'); do
+  short=${t##*::}; case "$short" in case_*) short=$(echo "$t" | awk -F:: '{print $(NF-1)"::"$NF}');; esac
+  ok=0
+  for i in 1 2 3; do
+    unshare -n sh -c "ip link set lo up; cd $WT && timeout 600 cargo nextest run --workspace --offline --tool-config-file pb:/w/lib/nextest.toml --profile pb -E 'test($short)'" > $WT/retest.log 2>&1 && ok=$((ok+1))
+  done
+  RETEST="$RETEST $short:$ok/3"
+done
+echo "retest alone with patch:$RETEST"
+echo "RESULT id=$ID demo_head_rc=$RC0 demo_patch_rc=$RC1 build=$BUILD baseline=[$BASE] retest=[$RETEST]"
 cd /; git -C /repo worktree remove --force $WT; rm -rf $WT
